@@ -549,7 +549,9 @@ class Engine:
                             v = mem_read(p.mem, k, h)
                             while isinstance(v, tuple) and v[0] == 'cast':
                                 v = v[2]
-                            if v != h:
+                            # unchanged, or set to the very constant it had before the loop (`rv.code = SUCCESS` on a
+                            # path of a walk that starts with rv.code == SUCCESS): by induction it is that constant
+                            if v != h and not (is_c(v) and v == info[h][1]):
                                 info[h][2] = False
             sub = {h: pre for h, (k, pre, ok) in info.items() if ok}
             if not sub:
@@ -1410,6 +1412,14 @@ class _Activation:
         lmap = {}
         st.loops.append((n, lmap))
         self._havoc_keys(self, None, keys, calls, st, st0, lmap, tag, 0)
+        # a field that is loop-carried on its own AND as part of its whole struct: the struct's havoc value is what a read
+        # of the field yields (the field's own entry was dropped from memory when the struct was havocked after it) - the
+        # loop map says so too, or readers would compare the field with a value nothing ever holds
+        for k in list(lmap):
+            if k[0] == 'f' and k[1][0] == '&' and k[1][1] in lmap and k not in st.mem:
+                hs = lmap[k[1][1]][0]
+                if isinstance(hs, tuple) and hs[0] == 'h':
+                    lmap[k] = (field_of_value(hs, k[2]), lmap[k][1])
         return st
 
     def _havoc_keys(self, act, es, keys, calls, st, st0, lmap, tag, depth):
